@@ -129,11 +129,13 @@ impl TokenParser {
     pub fn stop(&mut self, warn: &str, reason: StopReason) -> (e: VErr)
         ensures final(self).stop_reason == reason, final(self).llm_tokens == old(self).llm_tokens, final(self).llm_bytes == old(self).llm_bytes,
             final(self).cleared == old(self).cleared, final(self).parser == old(self).parser, final(self).token_env == old(self).token_env,
+            final(self).eos_without_bytes == old(self).eos_without_bytes,
     { unimplemented!() }
     #[verifier::external_body]
     pub fn stop_for_parser_error(&mut self, pref: &str, err: ParserError) -> (e: VErr)
         ensures final(self).llm_tokens == old(self).llm_tokens, final(self).llm_bytes == old(self).llm_bytes,
             final(self).cleared == old(self).cleared, final(self).parser == old(self).parser, final(self).token_env == old(self).token_env,
+            final(self).eos_without_bytes == old(self).eos_without_bytes,
     { unimplemented!() }
 
 //@@ fn parser/src/tokenparser.rs TokenParser::apply_token
@@ -146,6 +148,7 @@ impl TokenParser {
 //@ spec
     requires
         old(self).tinv(), old(self).pinv(),
+        forall|i: usize| old(self).eos_without_bytes@.contains(i) ==> i < old(self).llm_tokens@.len(),
         old(self).llm_tokens@.len() < 0x7fff_ffff, old(self).llm_bytes@.len() < 0x7fff_0000_0000,
     ensures
         final(self).cleared == old(self).cleared + 1,
@@ -159,6 +162,8 @@ impl TokenParser {
         // ... and without backtracking it is all of it, with exactly this token's bytes appended
         (res is Ok && final(self).llm_tokens@.len() == old(self).llm_tokens@.len() + 1) ==>
             final(self).llm_bytes@ == old(self).llm_bytes@ + tbytes(tok_id),
+        // zero-byte EOS records are only ever dropped, and stay inside the history
+        res is Ok ==> forall|i: usize| final(self).eos_without_bytes@.contains(i) ==> old(self).eos_without_bytes@.contains(i) && i < final(self).llm_tokens@.len(),
         // the parser never holds bytes the token parser dropped (when backtracking is passed on to it)
         (res is Ok && (final(self).inference_caps.backtrack || final(self).llm_tokens@.len() == old(self).llm_tokens@.len() + 1)) ==> final(self).pinv(),
 //@ body_start
@@ -232,6 +237,7 @@ impl TokenParser {
 // vacuity guards (must FAIL)
 pub fn must_fail_apply_never_backtracks(tp: &mut TokenParser, t: TokenId)
     requires old(tp).tinv(), old(tp).pinv(), old(tp).llm_tokens@.len() < 0x7fff_ffff, old(tp).llm_bytes@.len() < 0x7fff_0000_0000,
+        forall|i: usize| old(tp).eos_without_bytes@.contains(i) ==> i < old(tp).llm_tokens@.len(),
 {
     let n = tp.llm_tokens.len();
     let r = tp.apply_token(t);
